@@ -33,6 +33,21 @@ pub fn run(ctx: &Ctx) -> Report {
         .par_iter()
         .enumerate()
         .fold(Acc::default, |mut acc, (i, toks)| {
+            // a trailing correct FINGERPRINT replaced by each plausible alternative value
+            if let Some(Tok::FpOk) = toks.last() {
+                let buf = engine_in::render(hv[0].0, hv[0].1, hv[0].2, toks);
+                if buf.len() >= 28 && wire::decode(&buf).is_ok() {
+                    let off = buf.len() - 8;
+                    let v = u32::from_be_bytes([buf[off + 4], buf[off + 5], buf[off + 6], buf[off + 7]]);
+                    for a in crate::props::c09::alt_crc_values(&buf, off) {
+                        if a != v {
+                            let mut b = buf.clone();
+                            b[off + 4..off + 8].copy_from_slice(&a.to_be_bytes());
+                            judge_guarded(judge, &Case::new("parse", b).text(&["alt-crc"]), &mut acc);
+                        }
+                    }
+                }
+            }
             // all header variants on the fault-free buffer, faults on the first variant
             for (j, (c, m, t)) in hv.iter().enumerate() {
                 let buf = engine_in::render(*c, *m, *t, toks);
